@@ -3,7 +3,7 @@
 #![allow(dead_code, unused_imports)]
 use super::*;
 
-//@h {"id":"C15.K.ntv2.nodes","props":["C15","C08"],"tier":"quick","kind":"bounded","bound":"2 nodes; node values: two probe sets of pairwise distinct powers of two; both byte orders; grid_start 16, 32 or 48 within a 64-byte buffer","timeout":900,"text":"parse_subgrid_grid decodes node k of the file to node N-1-k of the grid as (lon, lat) with lat = rad(lat_file/3600), lon = rad(-lon_file/3600) (west-positive file longitudes negated), in the file's byte order; a node block reaching beyond the buffer is an error, not a panic"}
+//@h {"id":"C15.K.ntv2.nodes","props":["C15","C08"],"tier":"quick","kind":"bounded","bound":"2 nodes; node values: two probe sets of pairwise distinct powers of two; both byte orders; grid_start 16, 32 or 48 within a 64-byte buffer","timeout":1800,"text":"parse_subgrid_grid decodes node k of the file to node N-1-k of the grid as (lon, lat) with lat = rad(lat_file/3600), lon = rad(-lon_file/3600) (west-positive file longitudes negated), in the file's byte order; a node block reaching beyond the buffer is an error, not a panic"}
 #[kani::proof]
 #[kani::unwind(70)]
 fn c15_ntv2_nodes() {
